@@ -125,6 +125,15 @@ func sublists(entries []string, max int) [][]string {
 			}
 		}
 	}
+	if max >= 3 {
+		for i := range entries {
+			for j := i + 1; j < len(entries); j++ {
+				for k := j + 1; k < len(entries); k++ {
+					out = append(out, []string{entries[i], entries[j], entries[k]})
+				}
+			}
+		}
+	}
 	return out
 }
 
@@ -174,7 +183,7 @@ func TestVerifC10(t *testing.T) {
 	var sample interface{}
 	maxList := 1
 	if th {
-		maxList = 2
+		maxList = 3
 	}
 	lists := sublists(c10Entries, maxList)
 	forged := []struct {
